@@ -559,24 +559,35 @@ Proof.
   - injection H as -> ->. rewrite N.eqb_refl. cbn [andb]. apply IH. reflexivity.
 Qed.
 
-Lemma get_stream_in : forall l n b, NoDup (map fst l) -> In (n, b) l -> get_stream l n = Ok b.
+(* stream names distinct up to case (the uniqueness rule of [MS-CFB] 2.6.4 for one storage) *)
+Definition stream_keys (l : list (list N * list N)) : list (list N) := map (fun x => sn_key (fst x)) l.
+
+Lemma sn_eqb_keys : forall a b, sn_eqb a b = true <-> sn_key a = sn_key b.
+Proof. intros a b. unfold sn_eqb. apply list_eqb_eq. Qed.
+
+(* a stream is found under every case spelling of its name *)
+Lemma get_stream_in_key : forall l n n' b, NoDup (stream_keys l) -> In (n, b) l -> sn_key n' = sn_key n ->
+  get_stream l n' = Ok b.
 Proof.
-  induction l as [|[n' b'] l IH]; intros n b Hnd Hin; [contradiction|].
-  cbn [get_stream]. cbn [map fst] in Hnd. inversion Hnd as [|? ? Hnotin Hnd']; subst.
-  destruct (list_eqb n' n) eqn:E.
-  - apply list_eqb_eq in E. subst n'. destruct Hin as [Hin|Hin]; [congruence|].
-    exfalso. apply Hnotin. apply (in_map fst) in Hin. exact Hin.
+  induction l as [|[m b'] l IH]; intros n n' b Hnd Hin Hk; [contradiction|].
+  cbn [get_stream]. unfold stream_keys in Hnd. cbn [map fst] in Hnd. inversion Hnd as [|? ? Hnotin Hnd']; subst.
+  destruct (sn_eqb m n') eqn:E.
+  - apply sn_eqb_keys in E. destruct Hin as [Hin|Hin]; [congruence|].
+    exfalso. apply Hnotin. apply (in_map (fun x => sn_key (fst x))) in Hin. cbn [fst] in Hin. congruence.
   - destruct Hin as [Hin|Hin].
-    + injection Hin as -> ->. assert (list_eqb n n = true) by (apply list_eqb_eq; reflexivity). congruence.
-    + apply IH; assumption.
+    + injection Hin as -> ->. assert (sn_eqb n n' = true) by (apply sn_eqb_keys; congruence). congruence.
+    + apply (IH n n' b); assumption.
 Qed.
+
+Lemma get_stream_in : forall l n b, NoDup (stream_keys l) -> In (n, b) l -> get_stream l n = Ok b.
+Proof. intros l n b Hnd Hin. apply (get_stream_in_key l n n b Hnd Hin eq_refl). Qed.
 
 Definition body_ok (mb : mod_spec * mod_body) : Prop :=
   Forall valid_chunk (mb_chunks (snd mb)) /\
   ms_offset (fst mb) = N.of_nat (length (mb_pcode (snd mb))).
 
 Lemma read_all_modules_enc : forall cp streams mbs,
-  NoDup (map fst streams) ->
+  NoDup (stream_keys streams) ->
   (forall mb, In mb mbs ->
      In (decode cp (ms_stream (fst mb)), module_stream (snd mb)) streams /\ body_ok mb) ->
   read_all_modules streams (map (fun mb => expected_mod decode cp (fst mb)) mbs)
@@ -598,14 +609,14 @@ Theorem vba_project_roundtrip : forall p dir_chunks mbs refs,
   sem dir_chunks = encode_dir p ->
   p_mods p = map fst mbs ->
   Forall body_ok mbs ->
-  NoDup (map fst (project_streams decode p dir_chunks mbs)) ->
+  NoDup (stream_keys (project_streams decode p dir_chunks mbs)) ->
   vba_project decode (project_streams decode p dir_chunks mbs)
   = Ok (mkproject (p_codepage p) refs
           (map (fun mb => (decode (p_codepage p) (ms_name (fst mb)), sem (mb_chunks (snd mb)))) mbs)).
 Proof.
   intros p dir_chunks mbs refs Hv He Hdc Hk Hsem Hmods Hbodies Hnd.
   unfold vba_project. unfold project_streams at 1. cbn [get_stream].
-  assert (Hd : list_eqb DIR_NAME DIR_NAME = true) by reflexivity. rewrite Hd. cbn [obind].
+  assert (Hd : sn_eqb DIR_NAME DIR_NAME = true) by reflexivity. rewrite Hd. cbn [obind].
   rewrite decompress_encode by assumption. cbn [obind]. fold (sem dir_chunks). rewrite Hsem.
   rewrite (dir_roundtrip p refs Hv He). cbn [obind].
   rewrite Hmods, map_map.
@@ -733,7 +744,7 @@ Theorem module_text_roundtrip : forall p dir_chunks mbs refs mb,
   sem dir_chunks = encode_dir p ->
   p_mods p = map fst mbs ->
   Forall body_ok mbs ->
-  NoDup (map fst (project_streams decode p dir_chunks mbs)) ->
+  NoDup (stream_keys (project_streams decode p dir_chunks mbs)) ->
   NoDup (map (fun mb => decode (p_codepage p) (ms_name (fst mb))) mbs) ->
   In mb mbs ->
   exists pj,
@@ -753,6 +764,52 @@ Proof.
     - apply (in_map (fun mb => (decode (p_codepage p) (ms_name (fst mb)), sem (mb_chunks (snd mb))))) in Hin.
       exact Hin. }
   split; [exact Hraw|]. unfold get_module. cbn [pj_codepage pj_modules]. rewrite Hraw. reflexivity.
+Qed.
+(* ---------- CFB-1: the container may spell its stream names in any case ----------
+   [respelled l l']: the same streams in the same order, every name up to the case of its ASCII
+   letters (VBA / dir / MODULE1 for the names the dir stream records as Module1 …) *)
+Definition respelled (l l' : list (list N * list N)) : Prop :=
+  Forall2 (fun a b => sn_key (fst a) = sn_key (fst b) /\ snd a = snd b) l l'.
+
+Lemma get_stream_respelled : forall l l' n, respelled l l' -> get_stream l n = get_stream l' n.
+Proof.
+  intros l l' n H. induction H as [|[a x] [b y] l l' [Hk Hb] _ IH]; [reflexivity|].
+  cbn [fst snd] in Hk, Hb. subst y. cbn [get_stream]. unfold sn_eqb. rewrite Hk, IH. reflexivity.
+Qed.
+
+Lemma read_all_modules_respelled : forall l l' mods, respelled l l' ->
+  read_all_modules l mods = read_all_modules l' mods.
+Proof.
+  intros l l' mods H. induction mods as [|m mods IH]; [reflexivity|].
+  cbn [read_all_modules]. rewrite (get_stream_respelled l l' (m_stream m) H), IH. reflexivity.
+Qed.
+
+Theorem vba_project_respelled : forall l l', respelled l l' ->
+  vba_project decode l = vba_project decode l'.
+Proof.
+  intros l l' H. unfold vba_project. rewrite (get_stream_respelled l l' DIR_NAME H).
+  destruct (get_stream l' DIR_NAME) as [s|e| |]; cbn [obind]; try reflexivity.
+  destruct (decompress s) as [d|e| |]; cbn [obind]; try reflexivity.
+  destruct (parse_dir decode d) as [[[cp refs] mods]|e| |]; cbn [obind]; try reflexivity.
+  rewrite (read_all_modules_respelled l l' mods H). reflexivity.
+Qed.
+
+(* the round trip of a project through a container that stores its streams under ANY case spelling *)
+Theorem vba_project_roundtrip_any_case : forall p dir_chunks mbs refs streams,
+  valid_projb p = true ->
+  expected_refs decode (p_codepage p) (p_refs p) = Some refs ->
+  Forall valid_chunk dir_chunks -> known_C18 dir_chunks = None ->
+  sem dir_chunks = encode_dir p ->
+  p_mods p = map fst mbs ->
+  Forall body_ok mbs ->
+  NoDup (stream_keys (project_streams decode p dir_chunks mbs)) ->
+  respelled (project_streams decode p dir_chunks mbs) streams ->
+  vba_project decode streams
+  = Ok (mkproject (p_codepage p) refs
+          (map (fun mb => (decode (p_codepage p) (ms_name (fst mb)), sem (mb_chunks (snd mb)))) mbs)).
+Proof.
+  intros p dir_chunks mbs refs streams Hv He Hdc Hk Hsem Hmods Hbodies Hnd Hr.
+  rewrite <- (vba_project_respelled _ _ Hr). apply vba_project_roundtrip; assumption.
 Qed.
 End DirProofs.
 
@@ -822,7 +879,7 @@ Example ex_project_valid :
   (exists refs, expected_refs dec_id 1252 (p_refs ex_proj) = Some refs /\ length refs = 8%nat) /\
   Forall valid_chunk ex_dir_chunks /\ sem ex_dir_chunks = encode_dir ex_proj /\
   p_mods ex_proj = map fst ex_bodies /\ Forall body_ok ex_bodies /\
-  NoDup (map fst (project_streams dec_id ex_proj ex_dir_chunks ex_bodies)).
+  NoDup (stream_keys (project_streams dec_id ex_proj ex_dir_chunks ex_bodies)).
 Proof.
   split; [vm_compute; reflexivity|].
   split; [eexists; split; vm_compute; reflexivity|].
@@ -833,6 +890,26 @@ Proof.
   split; [vm_compute; reflexivity|]. split; [reflexivity|]. split.
   { repeat constructor; vm_compute; reflexivity. }
   cbn. repeat constructor; cbn; intuition discriminate.
+Qed.
+
+(* the example project in a container whose writer upper-cased the stream names: DIR, M1 … *)
+Example ex_project_upper_case :
+  let up := map (fun x => (sn_key (fst x), snd x)) (project_streams dec_id ex_proj ex_dir_chunks ex_bodies) in
+  respelled (project_streams dec_id ex_proj ex_dir_chunks ex_bodies) up /\
+  map fst up <> map fst (project_streams dec_id ex_proj ex_dir_chunks ex_bodies) /\
+  hd [] (map fst up) = [68; 73; 82] /\
+  vba_project dec_id up = vba_project dec_id (project_streams dec_id ex_proj ex_dir_chunks ex_bodies).
+Proof.
+  cbv zeta. split; [|split; [|split]].
+  - unfold respelled. induction (project_streams dec_id ex_proj ex_dir_chunks ex_bodies) as [|x l IH]; constructor.
+    + cbn [fst snd]. split; [|reflexivity]. unfold sn_key. rewrite map_map.
+      induction (fst x) as [|c n IHn]; [reflexivity|]. cbn [map]. rewrite <- IHn. f_equal.
+      unfold sn_upper. destruct ((97 <=? c) && (c <=? 122)) eqn:E; [|rewrite E; reflexivity].
+      assert (E2 : (97 <=? c - 32) && (c - 32 <=? 122) = false) by lia. rewrite E2. reflexivity.
+    + exact IH.
+  - vm_compute. discriminate.
+  - vm_compute. reflexivity.
+  - vm_compute. reflexivity.
 Qed.
 
 Example ex_project_reads :
@@ -856,7 +933,7 @@ Definition dec_shift (cp : N) (l : list N) : list N :=
   map (fun b => if b =? 35 then 35 else b + 256) l.
 Example ex_project_module_text :
   NoDup (map (fun mb => dec_shift 1252 (ms_name (fst mb))) ex_bodies) /\
-  NoDup (map fst (project_streams dec_shift ex_proj ex_dir_chunks ex_bodies)) /\
+  NoDup (stream_keys (project_streams dec_shift ex_proj ex_dir_chunks ex_bodies)) /\
   exists pj, vba_project dec_shift (project_streams dec_shift ex_proj ex_dir_chunks ex_bodies) = Ok pj /\
     get_module dec_shift pj [333; 305]
     = Some [339; 373; 354; 339; 373; 354; 339; 373; 354; 266].
@@ -1092,7 +1169,7 @@ Qed.
 Lemma get_stream_no_fuel : forall streams n, get_stream streams n <> OutOfFuel.
 Proof.
   intros streams n. induction streams as [|[a b] l IHl]; cbn [get_stream]; [discriminate|].
-  destruct (list_eqb a n); [discriminate|exact IHl].
+  destruct (sn_eqb a n); [discriminate|exact IHl].
 Qed.
 
 Lemma read_all_modules_no_fuel : forall streams mods, read_all_modules streams mods <> OutOfFuel.
@@ -1161,7 +1238,7 @@ Qed.
 Lemma get_stream_wf : forall streams n, wf (fun _ => True) (get_stream streams n).
 Proof.
   intros streams n. induction streams as [|[a b] l IHl]; cbn [get_stream]; [exact I|].
-  destruct (list_eqb a n); [exact I|exact IHl].
+  destruct (sn_eqb a n); [exact I|exact IHl].
 Qed.
 
 Lemma decompress_wf : forall s, wf (fun _ => True) (decompress s).
